@@ -44,6 +44,8 @@ def run(run, tier):
     fixtures(run)
     hs = l5.harnesses(tier, run.seed)
     ch.run_harnesses(run, "C05", hs, timeout=150 if tier == "quick" else 500)
+    from vf import bounds
+    bounds.report(run, ["fastavro._write_py", "fastavro._read_py"], 3, "records and blocks per file")
     l2.describe(run, tier)
     run.bounds += ["files: <= 2 (quick) / 3 (thorough) records as in C04; every partition into blocks, an optional empty block "
                    "before each block and at the end, the header map in <= 3 chunks of symbolic sizes each in positive or "
